@@ -15,7 +15,7 @@ Proof.
   cbn [split_ip_items fold_right existsb]. fold (split_ip_items items).
   destruct it as [a b|a b|a n|a n]; cbn [fst snd existsb ip_item_contains orb];
     try exact IH; try (f_equal; exact IH).
-  cbn in Hwf. destruct Hwf as (Hn & _ & Hm). rewrite cidr_range_spec by assumption.
+  cbn in Hwf. destruct Hwf as (Hn & Hm). rewrite cidr_range_spec by assumption.
   f_equal; exact IH.
 Qed.
 
@@ -27,7 +27,7 @@ Proof.
   cbn [split_ip_items fold_right existsb]. fold (split_ip_items items).
   destruct it as [a b|a b|a n|a n]; cbn [fst snd existsb ip_item_contains orb];
     try exact IH; try (f_equal; exact IH).
-  cbn in Hwf. destruct Hwf as (Hn & _ & Hm). rewrite cidr_range_spec by assumption.
+  cbn in Hwf. destruct Hwf as (Hn & Hm). rewrite cidr_range_spec by assumption.
   f_equal; exact IH.
 Qed.
 
